@@ -1100,8 +1100,46 @@ where
         let reconstructed = self.reconstruct_index_from_bits(&bits)?;
         self.connect(x, reconstructed);
 
+        // Canonicity. A limb decomposed into `BF::bits()` bits has `2^bits > p`, so the
+        // recomposition identity also holds for the bits of `limb + p` (whenever that still
+        // fits). Force every full-width limb to be the expansion of an integer below `p`.
+        // Shorter limbs need nothing: `2^(BF::bits() - 1) <= p`.
+        let limb_bits = BF::bits();
+        for chunk in bits.chunks(limb_bits) {
+            if chunk.len() == limb_bits {
+                self.assert_bits_below_modulus::<BF>(chunk);
+            }
+        }
+
         self.pop_scope();
         Ok(bits)
+    }
+
+    /// Constrains little-endian boolean `bits` (of length `BF::bits()`) to be the expansion of
+    /// an integer strictly below the modulus of `BF`: lexicographic comparison with the bits
+    /// of `p`, most significant bit first.
+    fn assert_bits_below_modulus<BF>(&mut self, bits: &[ExprId])
+    where
+        BF: PrimeField64,
+    {
+        let p = BF::ORDER_U64;
+        let one = self.define_const(F::ONE);
+        // `eq`: all bits above the current one equal those of `p`.
+        let mut eq = one;
+        // `lt`: at some higher position `p` has 1, `bits` has 0, and everything above is equal.
+        // The summands are mutually exclusive, so `lt` is 0 or 1.
+        let mut lt = self.define_const(F::ZERO);
+        for i in (0..bits.len()).rev() {
+            let not_b = self.sub(one, bits[i]);
+            if (p >> i) & 1 == 1 {
+                let here = self.mul(eq, not_b);
+                lt = self.add(lt, here);
+                eq = self.mul(eq, bits[i]);
+            } else {
+                eq = self.mul(eq, not_b);
+            }
+        }
+        self.connect(lt, one);
     }
 
     /// Packs little-endian bits into an extension-field element, limb by limb.
